@@ -26,11 +26,20 @@ type kase struct {
 	// Before: queries filtered earlier, in pair mode, by the same Filter value (PALS runs one
 	// filter over both strands); the oracle is applied to the call for Query.
 	Before []string `json:"before,omitempty"`
+	// BeforeFails: the earlier calls are given a sorter that refuses the first hit (it sorts another
+	// type), so they return early with that error and never reach their final flush; whatever they
+	// leave in the Filter value must not be seen by the call for Query.
+	BeforeFails bool `json:"before_fails,omitempty"`
 }
+
+type otherElem int
+
+func (a otherElem) Less(b interface{}) bool { return a < b.(otherElem) }
 
 type runner struct {
 	m    *morass.Morass
-	slot int // worker index announced to the progress watchdog
+	bad  *morass.Morass // sorts otherElem: every Push of a filter.Hit is refused
+	slot int            // worker index announced to the progress watchdog
 }
 
 func newRunner(dir string) *runner {
@@ -38,10 +47,14 @@ func newRunner(dir string) *runner {
 	if err != nil {
 		panic(err)
 	}
-	return &runner{m: m}
+	bad, err := morass.New(otherElem(0), "c14bad", dir, 1<<10, false)
+	if err != nil {
+		panic(err)
+	}
+	return &runner{m: m, bad: bad}
 }
 
-func (r *runner) close() { r.m.CleanUp() }
+func (r *runner) close() { r.m.CleanUp(); r.bad.CleanUp() }
 
 // hits runs the real filter and returns what it pushed.
 func (r *runner) hits(k kase) ([]filter.Hit, error) {
@@ -67,6 +80,10 @@ func (r *runner) hits(k kase) ([]filter.Hit, error) {
 	}
 	f := filter.New(ki, &filter.Params{WordSize: k.K, MinMatch: k.N, MaxError: k.E, TubeOffset: k.Off})
 	for _, b := range k.Before {
+		if k.BeforeFails {
+			f.Filter(linear.NewSeq("b", alphabet.BytesToLetters([]byte(b)), alphabet.DNA), false, false, r.bad)
+			continue
+		}
 		r.m.Clear()
 		if err := f.Filter(linear.NewSeq("b", alphabet.BytesToLetters([]byte(b)), alphabet.DNA), false, false, r.m); err != nil {
 			return nil, err
@@ -221,7 +238,7 @@ func deBruijn(alpha string, order int) string {
 
 func run(c *enum.Ctx) {
 	kmerindex.MinKmerLen = 2
-	c.Rule("parameters: every (k,n,e,offset) with k in {2,3,4}, n in k+2..8 (space A) / {9,12,16} with k=4 (space B), e in {0,1,2}, offset in max(e,1)..e+3 (space B also 8) and positive threshold n+1-k(e+1); space A: 6 fixed targets of length 8..12 x every query over {a,c,g,t} of length n..6 (thorough 7), plus self comparison of every sequence of length <=7 (thorough 8); space B (tube geometry): a 40-letter target over {a,c,g} with all 4-mers distinct, queries of length 100 (all 't' background, sharing no k-mer with the target) so that the circular tube array is recycled, a copy of target[t0:t0+n] planted at EVERY (t0,q0) with every substitution pattern of <=e positions (quick: exact, all single positions, pairs at 3 spacings); space F (reuse): the space-B plants filtered by a Filter value that has already filtered a query carrying a copy of the first k, k+1, n-1 or n letters of the same window 0, +3, -3, +offset positions away or in the same slot of the tube ring one or two turns later (thorough: at every position); space D: k in {2,3}, n in {k,k+1,k+3}, e<=1, offset in {1,2,3,6} on targets of 17/30 and queries of 50/83 letters (query much longer than the target, threshold as low as 1) with a plant at every (t0,q0); space E: a plant at every (t0,q0) plus one stray copy of a word from the first e+1 target positions at every other query position (two-site geometry of the tube ring); space C: PALS-like parameters (k=6,n=30,e=2,offset=16; thorough also (8,50,4,36), (6,30,2,3), (5,20,1,8)) on targets of 90..200 and queries of 260..420 letters with a plant at every (t0,q0) (quick: thinned away from the ends) and substitutions at every third position; oracle: brute force over every pair of length-n windows with Hamming distance <=e (self: q0>t0): some pushed filter.Hit h must satisfy -h.Diagonal <= q0-t0 <= -h.Diagonal+offset+e-1 and [h.From,h.To) must meet [q0,q0+n); hits are read back through a real in-memory morass; non-trivial = runs with at least one epsilon-match")
+	c.Rule("parameters: every (k,n,e,offset) with k in {2,3,4}, n in k+2..8 (space A) / {9,12,16} with k=4 (space B), e in {0,1,2}, offset in max(e,1)..e+3 (space B also 8) and positive threshold n+1-k(e+1); space A: 6 fixed targets of length 8..12 x every query over {a,c,g,t} of length n..6 (thorough 7), plus self comparison of every sequence of length <=7 (thorough 8); space B (tube geometry): a 40-letter target over {a,c,g} with all 4-mers distinct, queries of length 100 (all 't' background, sharing no k-mer with the target) so that the circular tube array is recycled, a copy of target[t0:t0+n] planted at EVERY (t0,q0) with every substitution pattern of <=e positions (quick: exact, all single positions, pairs at 3 spacings); space F (reuse): the space-B plants filtered by a Filter value that has already filtered a query carrying a copy of the first k, k+1, n-1 or n letters of the same window 0, +3, -3, +offset positions away or in the same slot of the tube ring one or two turns later (thorough: at every position); space G (a failed call before): as F, but the earlier call is given a sorter that refuses its first hit - the full copy of the window at the start of its query - and so returns early while the tubes of a partial copy, g positions later at the place of the later plant, are open; space D: k in {2,3}, n in {k,k+1,k+3}, e<=1, offset in {1,2,3,6} on targets of 17/30 and queries of 50/83 letters (query much longer than the target, threshold as low as 1) with a plant at every (t0,q0); space E: a plant at every (t0,q0) plus one stray copy of a word from the first e+1 target positions at every other query position (two-site geometry of the tube ring); space C: PALS-like parameters (k=6,n=30,e=2,offset=16; thorough also (8,50,4,36), (6,30,2,3), (5,20,1,8)) on targets of 90..200 and queries of 260..420 letters with a plant at every (t0,q0) (quick: thinned away from the ends) and substitutions at every third position; oracle: brute force over every pair of length-n windows with Hamming distance <=e (self: q0>t0): some pushed filter.Hit h must satisfy -h.Diagonal <= q0-t0 <= -h.Diagonal+offset+e-1 and [h.From,h.To) must meet [q0,q0+n); hits are read back through a real in-memory morass; non-trivial = runs with at least one epsilon-match")
 	c.Assume("kmerindex.MinKmerLen is lowered to 2 by the harness so that small k keep the spaces small", "sequences are over a,c,g,t only")
 	work := os.Getenv("VERIF_WORK")
 	if work == "" {
@@ -402,6 +419,59 @@ func run(c *enum.Ctx) {
 					if check(c, r, k) {
 						nt.AddH(enum.Hash64(enum.J(k)))
 					}
+				}
+			}
+		}
+		c.Merge(nt)
+	})
+	// space G: as F, but the earlier call FAILS half way: its sorter refuses the first hit (the full
+	// copy of the window at the start of the query, pushed when its tube is retired), so the call
+	// returns with that error while the tubes of a partial copy further down - at the place of the
+	// later plant, g positions after the full copy - are still open; the same Filter value then
+	// filters the ordinary query
+	enum.Parallel(len(jobs), func(ji int) {
+		j := jobs[ji]
+		p := j.p
+		if c.Quick && (j.t0%3 != 0 || p.Off == 8) {
+			return
+		}
+		r := newRunner(filepath.Join(work))
+		r.slot = ji
+		defer r.close()
+		nt := enum.NontrivialSet{}
+		bg := strings.Repeat("t", qlen)
+		win := target[j.t0 : j.t0+p.N]
+		for q0 := 0; q0+p.N <= qlen; q0++ {
+			if c.Quick && q0%4 != 0 {
+				continue
+			}
+			final := bg[:q0] + win + bg[q0+p.N:]
+			for _, l := range []int{p.K, p.K + 1, p.N - 1} {
+				for g := 0; g <= q0-p.N; g++ {
+					if c.Quick && g > p.Off+p.E+2 && g%7 != 0 {
+						continue
+					}
+					a := q0 - p.N - g
+					first := []byte(bg)
+					copy(first[a:], win)
+					copy(first[q0:], win[:l])
+					k := kase{K: p.K, N: p.N, E: p.E, Off: p.Off, Target: target, Query: final, Before: []string{string(first)}, BeforeFails: true}
+					c.Eval()
+					if check(c, r, k) {
+						nt.AddH(enum.Hash64(enum.J(k)))
+					}
+				}
+			}
+			// the failed call's only match lies on the plant's diagonal but s positions further down
+			// both sequences (another window of the target): refused when its tube is retired or, if
+			// the tube is still open at the end of that query, in the final flush
+			for s := 1; j.t0+s+p.N <= len(target) && q0+s+p.N <= qlen; s++ {
+				first := []byte(bg)
+				copy(first[q0+s:], target[j.t0+s:j.t0+s+p.N])
+				k := kase{K: p.K, N: p.N, E: p.E, Off: p.Off, Target: target, Query: final, Before: []string{string(first)}, BeforeFails: true}
+				c.Eval()
+				if check(c, r, k) {
+					nt.AddH(enum.Hash64(enum.J(k)))
 				}
 			}
 		}
